@@ -59,6 +59,20 @@ func (c *Compiler) validateAllGroupings(m parse.Node, n parse.Node) error {
 	return nil
 }
 
+// usesBelow returns the uses statements that are expanded when the grouping
+// g is instantiated: its own and those of all its descendants, including the
+// ones inside groupings defined below g.
+func usesBelow(g parse.Node) []parse.Node {
+	var out []parse.Node
+	for _, ch := range g.Children() {
+		if ch.Type() == parse.NodeUses {
+			out = append(out, ch)
+		}
+		out = append(out, usesBelow(ch)...)
+	}
+	return out
+}
+
 func (c *Compiler) validateGrouping(
 	m parse.Node,
 	g parse.Node,
@@ -68,8 +82,11 @@ func (c *Compiler) validateGrouping(
 		return fmt.Errorf("Grouping cycle detected in: grouping %s", g.Name())
 	}
 
+	// group_map holds the groupings on the current chain of uses, so that a
+	// grouping reached along two different chains is not taken for a cycle
 	group_map[g.Name()] = true
-	for _, u := range g.ChildrenByType(parse.NodeUses) {
+	defer delete(group_map, g.Name())
+	for _, u := range usesBelow(g) {
 		gname := u.ArgIdRef()
 		mod, err := u.GetModuleByPrefix(
 			gname.Space, c.modules, c.skipUnknown)
@@ -83,7 +100,7 @@ func (c *Compiler) validateGrouping(
 			continue
 		}
 
-		ug, ok := g.LookupGrouping(gname.Local)
+		ug, ok := u.LookupGrouping(gname.Local)
 		if !ok {
 			return fmt.Errorf(
 				"Unknown grouping (grouping %s) referenced from grouping %s",
